@@ -65,7 +65,8 @@ def check(env, rep, tier):
                     # the value must flow straight into Entry::or_insert
                     nxt = b["blocks"][t["t"]]["term"] if t["t"] is not None else {}
                     nr = (nxt.get("resolved") or nxt.get("callee") or {}).get("path", "")
-                    creators.append((b["path"], bb["tspan"]["l"], nr.endswith("::or_insert")))
+                    # (or into the vacant side of that very lookup: `match entry(k) { Vacant(v) => v.insert(default), .. }`)
+                    creators.append((b["path"], bb["tspan"]["l"], nr.endswith("::or_insert") or nr.startswith("lru_time_cache::VacantEntry::") and nr.endswith("::insert")))
         # ... or lazily, by handing the constructor itself to Entry::or_insert_with
         for b in prog.bodies.values():
             if b.get("promoted") or "::tests" in b["id"]:
